@@ -36,11 +36,11 @@ def run(chk: Check):
     else:
         trees = G.model_part(chk, tlc)
         n_tlc = len(trees)
-        if not chk.thorough and n_tlc > 260:       # quick: all exhaustive small ones are kept up to the cap, deterministic
-            keep = sorted(chk.rng.sample(range(n_tlc), 260))
+        if not chk.thorough and n_tlc > 400:       # quick: all exhaustive small ones are kept up to the cap, deterministic
+            keep = sorted(chk.rng.sample(range(n_tlc), 400))
             trees = [trees[i] for i in keep]
         n_tlc_used = len(trees)
-        for _ in range(chk.pick(240, 6000)):
+        for _ in range(chk.pick(500, 6000)):
             trees.append(G.gen(chk.rng, 4))
         chk.notes["trees"] = dict(tlc_generated=n_tlc, tlc_used=n_tlc_used, random=len(trees) - n_tlc_used)
     prod = G.produce("C01", trees, subs=True, seed=chk.seed)
